@@ -23,7 +23,7 @@ func init() {
 }
 
 // Prelude: the observation of a Date object.  Arrays are encoded
-// element-wise; a caught exception is {t:"thr", name}.  TV() maps a -0 time
+// element-wise; a caught exception is {t:"thr", name} (TRYV: plus the thrown non-Error value v).  TV() maps a -0 time
 // value to +0: 15.9.1.14 step 3 leaves that choice to the implementation.
 // MKJ builds a scripted object for the generic toJSON.
 const prelude = `
@@ -33,10 +33,14 @@ function ENCOBJ(v){
     var a = []; for (var i = 0; i < v.length; i++) a.push(ENCV(v[i]));
     return {t:"arr", a:a};
   }
-  if (v instanceof THR) return {t:"thr", name:v.name};
+  if (v instanceof THR) return ("v" in v) ? {t:"thr", name:v.name, v:ENCV(v.v)} : {t:"thr", name:v.name};
   return {t:"obj", cls:Object.prototype.toString.call(v)};
 }
 function TRY(f){ try { return f(); } catch (e) { return new THR(e instanceof Error ? e.name : "value"); } }
+function TRYV(f){
+  try { return f(); }
+  catch (e) { if (e instanceof Error) return new THR(e.name); var t = new THR("value"); t.v = e; return t; }
+}
 function TV(x){ return x === 0 ? 0 : x; }
 function OBS(d){
   return [TV(d.getTime()), TV(d.valueOf()), d.getUTCFullYear(), d.getUTCMonth(), d.getUTCDate(), d.getUTCDay(),
@@ -61,12 +65,12 @@ function MKJ(id, vo, ts, iso){
 var mutatedPrelude = strings.Replace(prelude, "d.getUTCMonth(), d.getUTCDate()", "d.getUTCDate(), d.getUTCMonth()", 1)
 
 type bounds struct {
-	nRand, nRandBlk, nSeq2, nSeq3, seqEvery, nBase int
+	nRand, nRandBlk, nSeq2, nSeq3, seqEvery, fmtEvery, nBase int
 }
 
 func cfg(c *core.Ctx, fams string, b bounds) string {
-	return fmt.Sprintf("CONSTANTS\n OpenDev = %s\n Fams = %s\n NRand = %d\n NRandBlk = %d\n NSeq2 = %d\n NSeq3 = %d\n SeqEvery = %d\n Seed = %d\n NBase = %d\nINIT Init\nNEXT Next\nINVARIANT Emit\nCHECK_DEADLOCK FALSE\n",
-		core.TLASet(c.Findings.OpenIDs()), fams, b.nRand, b.nRandBlk, b.nSeq2, b.nSeq3, b.seqEvery, c.Seed%1000, b.nBase)
+	return fmt.Sprintf("CONSTANTS\n OpenDev = %s\n Fams = %s\n NRand = %d\n NRandBlk = %d\n NSeq2 = %d\n NSeq3 = %d\n SeqEvery = %d\n Seed = %d\n FmtEvery = %d\n NBase = %d\nINIT Init\nNEXT Next\nINVARIANT Emit\nCHECK_DEADLOCK FALSE\n",
+		core.TLASet(c.Findings.OpenIDs()), fams, b.nRand, b.nRandBlk, b.nSeq2, b.nSeq3, b.seqEvery, c.Seed%1000, b.fmtEvery, b.nBase)
 }
 
 var assume = []string{
@@ -81,11 +85,11 @@ var Spec = &gen.Spec{
 	Prelude: prelude,
 	PerVM:   200,
 	Runs: func(c *core.Ctx) []gen.RunCfg {
-		b := bounds{nRand: 150, nRandBlk: 16, nSeq2: 1, nSeq3: 2, seqEvery: 6, nBase: 1}
+		b := bounds{nRand: 150, nRandBlk: 16, nSeq2: 1, nSeq3: 2, seqEvery: 6, fmtEvery: 2, nBase: 1}
 		if c.Thorough() {
-			b = bounds{nRand: 4000, nRandBlk: 32, nSeq2: 6, nSeq3: 10, seqEvery: 1, nBase: 2}
+			b = bounds{nRand: 2500, nRandBlk: 32, nSeq2: 4, nSeq3: 8, seqEvery: 1, fmtEvery: 1, nBase: 2}
 		}
-		o := tlc.Opts{Seed: c.Seed}
+		o := tlc.Opts{Seed: c.Seed, Timeout: 60 * time.Minute}
 		return []gen.RunCfg{
 			{Name: "instants(accessors,toISOString,toJSON)+Date.UTC/constructor+Date.parse+argument-conversion+this-checks", Cfg: cfg(c, `{"inst", "utc", "parse", "conv", "this"}`, b), Opts: o},
 			{Name: "setter-sequences", Cfg: cfg(c, `{"set"}`, b), Opts: o},
@@ -102,7 +106,7 @@ func selfTest(c *core.Ctx) (int, int64, error) {
 	defer os.RemoveAll(filepath.Join(core.Root, "replays", sc.Property))
 	sp := &gen.Spec{Module: "C12", Prelude: mutatedPrelude, PerVM: 200,
 		Runs: func(c *core.Ctx) []gen.RunCfg {
-			return []gen.RunCfg{{Name: "selftest", Cfg: cfg(c, `{"self"}`, bounds{1, 1, 1, 1, 1, 1}), Opts: tlc.Opts{Seed: c.Seed}}}
+			return []gen.RunCfg{{Name: "selftest", Cfg: cfg(c, `{"self"}`, bounds{1, 1, 1, 1, 1, 1, 1}), Opts: tlc.Opts{Seed: c.Seed}}}
 		}}
 	cov, _, err := gen.Check(sc, sp)
 	if err != nil {
@@ -127,7 +131,7 @@ func Check(c *core.Ctx) (map[string]any, []string, error) {
 	}
 	nj := 6000
 	if c.Thorough() {
-		nj = 150000
+		nj = 100000
 	}
 	jc, err := judge(c, nj)
 	if err != nil {
